@@ -177,6 +177,8 @@ def run_case(case, make_proxy, register, captured):
         register(c["name"], rec.make(c["name"], c["result"], c.get("raises")))
     ccfg = Config(version=case["version"], use_jsonclass=case["jsonclass"])
     history = History()
+    if history.request is not None or history.response is not None:
+        fail("C01/history-latest", "a fresh History reports %r / %r as latest texts" % (history.request, history.response))
     proxy = make_proxy(ccfg, history)
     style = case["style"]
     chain = style in ("chain", "batch-chain")
@@ -248,6 +250,12 @@ def run_case(case, make_proxy, register, captured):
         fail("C01/history-responses", "History.responses %r differ from the texts the server sent %r" % (history.responses, [r for _, r in seen]))
     if len(seen) != 1:
         fail("C01/history-count", "%d exchanges for one call" % len(seen))
+    # the accessors of the attached History: latest texts, and nothing left after clear()
+    if history.request != seen[-1][0] or history.response != seen[-1][1]:
+        fail("C01/history-latest", "History.request/.response %r / %r are not the last exchanged texts %r" % (history.request, history.response, seen[-1]))
+    history.clear()
+    if history.requests != [] or history.responses != [] or history.request is not None or history.response is not None:
+        fail("C01/history-clear", "after clear() the History still holds %r / %r" % (history.requests, history.responses))
     vals = [c["name"] for c in case["calls"]] + [c["params"] for c in case["calls"]] + [c["result"] for c in case["calls"]]
     nt = any(gen.has_nonascii(v) or gen.depth(v) >= 2 or gen.has_falsy(v) for v in vals)
     classes = ["style:" + style, "v%.1f" % case["version"], "jsonclass:%s" % ("on" if case["jsonclass"] else "off")]
